@@ -389,4 +389,8 @@ def run_family(pid: str, tier: str, seed: int, replay=None) -> int:
               "(time-mask patterns K<=12 x d0<=3; grammar architectures x alive assignments), stratified samples of the larger dumps, "
               "and seeded random architectures/masks beyond the bounds (up to ~10 nodes, widths <= 6, kernels 1..9, stride 1..2, 1-D and 2-D). "
               "Non-trivial = at least one channel, tap or dilation level is pruned; distinct = canonical JSON of the scenario.")
+    if pid == "C09":
+        # MPS half of C09 (0-bit channel pruning of a per-channel mixed-precision search): specs MPSFeat*, own driver
+        from . import c09_mps
+        c09_mps.add_to_run(R, tier, seed)
     return R.finish()
